@@ -88,6 +88,9 @@ ASSUMPTIONS = [
     "input_unchanged is true by construction in a functional model (tables are values); on the implementation it is "
     "checked by testing only",
     "operations other than the eight non-summary ones are outside the model (validate returns Unmodelled)",
+    "the model's tables are positional (no row labels); that the implementation's frames are labelled 0..n-1 after "
+    "every operation -- which later operations rely on -- is an implementation-side oracle clause (index-contract, "
+    "recorded by wrapping Dispatcher.post_proc_data), exercised by every ordered pair of operations",
     "merge_consecutive: whether n/a matches n/a in a match column that also holds numbers depends on pandas' dtype "
     "inference for single rows (Series.equals of an iterrows() row and a .loc[] row); such tables are not compared",
 ]
@@ -213,17 +216,30 @@ def run_seq(ops, tables):
     except Exception as e:  # noqa
         return {"kind": exn_kind(e), "msg": str(e)[:120]}, []
     out = []
+    # the dispatcher's tables are positional: after every operation the frame must be labelled 0..n-1
+    # (later operations index by label and by position interchangeably); recorded by wrapping post_proc_data
+    index_log = []
+    orig_post = disp.post_proc_data
+
+    def post(df_):
+        res_ = orig_post(df_)
+        index_log.append(list(res_.index) == list(range(len(res_))))
+        return res_
+    disp.post_proc_data = post
     for t in tables:
         df = make_df(t)
         df0 = df.copy(deep=True)
         r = {}
+        del index_log[:]
         try:
             res = disp.run_operations(df)
             r["ok"] = canon_df(res)
+            r["index_final"] = list(res.index) == list(range(len(res)))
         except Exception as e:  # noqa
             r["exn"] = exn_kind(e)
             r["msg"] = str(e)[:100]
             r["op_index"] = failing_op_index(e, disp)
+        r["index_ok"] = list(index_log)
         r["input_same"] = bool(df.equals(df0)) and list(df.columns) == list(df0.columns)
         out.append(r)
     return None, out
@@ -509,6 +525,19 @@ def order_sensitive(ops):
     return seen_split
 
 
+def completion_only(ops):
+    """The only reason the list is not compared is a merge_consecutive after a split_rows (tie order), not a
+    number-stringifying operation after float arithmetic."""
+    seen_numeric = False
+    for op in ops:
+        nm = op["operation"]
+        if seen_numeric and nm in ("remap_columns", "factor_column"):
+            return False
+        if nm == "split_rows" or (nm == "merge_consecutive" and op["parameters"].get("set_durations") is True):
+            seen_numeric = True
+    return True
+
+
 def merge_na_risk(ops, t):
     """pandas 3 infers a different dtype for a row taken by iterrows() and by .loc[] when the row holds NaN next
     to strings in a non-string column, so Series.equals is False for identical rows: whether n/a matches n/a in a
@@ -615,6 +644,13 @@ def oracle(case, r, res):
         if not out["input_same"]:
             res.report("input-unchanged", ck, "input DataFrame differs after run_operations")
         fr = r["fresh"][k]
+        # positional contract of the dispatcher's tables: labels 0..n-1 after every operation
+        for which, rr in (("in sequence", out), ("fresh", fr)):
+            bad_ix = [i for i, ok in enumerate(rr.get("index_ok", [])) if not ok]
+            if bad_ix or rr.get("index_final") is False:
+                res.report("index-contract", ck, f"{which}: row labels are not 0..n-1 after operation(s) {bad_ix} "
+                                                 f"({[ops[i]['operation'] for i in bad_ix if i < len(ops)]})")
+                break
         # order independence / repeatability against a fresh dispatcher
         same = ("ok" in out) == ("ok" in fr) and (
             tables_equal(out["ok"], fr["ok"], bool(multiset)) if "ok" in out else out["exn"] == fr["exn"])
@@ -623,6 +659,11 @@ def oracle(case, r, res):
                        fid=known("C17-F1" if mutated else None))
         # documented meaning / runs to completion, judged on the fresh run (history-free)
         sp = spec_run(ops, t)
+        if multiset is None and sp[0] == "ok" and completion_only(ops) and not merge_na_risk(ops, t) and "exn" in fr:
+            # merge_consecutive after split_rows: the table depends on the unspecified order of equal onsets,
+            # but running to completion does not
+            res.report("valid-runs", ck, f"{fr['exn']}: {fr.get('msg')}", fid=known(classify_crash(ops, fr)))
+            continue
         if sp[0] == "na" or multiset is None or merge_na_risk(ops, t):
             continue
         if sp[0] == "raise":
@@ -943,6 +984,131 @@ def random_cases(rng, n):
     return out
 
 
+def gen_event_table(rng):
+    """A table with an event-code column that has runs (b), a repetitive match column (c), numeric
+    onset/duration and one or two free columns."""
+    cols = ["onset", "duration", "b", "c"] + rng.sample(["a", "d"], rng.randint(0, 2))
+    rng.shuffle(cols)
+    n = rng.randint(4, 7)
+    dur_na = rng.random() < 0.3
+    rows = []
+    for _ in range(n):
+        row = []
+        for c in cols:
+            if c == "onset":
+                row.append(rng.randint(0, 9))
+            elif c == "duration":
+                row.append(NA if (dur_na and rng.random() < 0.25) else rng.randint(0, 4))
+            elif c == "b":
+                row.append(rng.choice(["x", "x", "x", "stop", "X", NA]))
+            elif c == "c":
+                row.append(rng.choice(["p", "p", "q", NA]))
+            else:
+                row.append(rng.choice(STRS))
+        rows.append(row)
+    return {"cols": cols, "rows": rows}
+
+
+def active_op(rng, name, tbl):
+    """An operation whose parameters are taken from the concrete table `tbl`, so that it really does something:
+    removes a row that is not the last one, merges a run, adds rows or columns, moves columns."""
+    cols = list(tbl["cols"])
+    rows = tbl["rows"]
+    str_cols = [c for c in cols if c not in ("onset", "duration") and
+                all(isinstance(r[cols.index(c)], str) for r in rows)]
+    if not str_cols or not rows:
+        return gen_op(rng, name, cols or COLS)
+    code_col = "b" if "b" in str_cols else rng.choice(str_cols)
+
+    def values_of(c, non_final=False):
+        i = cols.index(c)
+        src = rows[:-1] if (non_final and len(rows) > 1) else rows
+        return [r[i] for r in src if r[i] != NA]
+    if name == "remove_rows":
+        c = rng.choice(str_cols)
+        vs = values_of(c, non_final=True) or ["x"]
+        vals = list(dict.fromkeys(rng.sample(vs, min(len(vs), rng.randint(1, 2)))))
+        return op(name, column_name=c, remove_values=vals)
+    if name == "remove_columns":
+        free = [c for c in cols if c not in (code_col, "onset", "duration")] or [cols[0]]
+        return op(name, column_names=rng.sample(free, 1), ignore_missing=rng.random() < 0.5)
+    if name == "rename_columns":
+        free = [c for c in cols if c not in ("onset", "duration")]
+        k = rng.choice(free)
+        return op(name, column_mapping={k: rng.choice([n for n in NEWCOLS if n not in cols] or ["zz"])},
+                  ignore_missing=rng.random() < 0.5)
+    if name == "reorder_columns":
+        order = rng.sample(cols, rng.randint(1, len(cols)))
+        return op(name, column_order=order, ignore_missing=rng.random() < 0.5, keep_others=rng.random() < 0.7)
+    if name == "factor_column":
+        c = rng.choice(str_cols)
+        p = {"column_name": c}
+        if rng.random() < 0.7:
+            vs = list(dict.fromkeys(values_of(c))) or ["x"]
+            p["factor_values"] = rng.sample(vs, min(len(vs), rng.randint(1, 2)))
+            if rng.random() < 0.6:
+                fresh = [n for n in NEWCOLS + ["h", "k"] if n not in cols]
+                p["factor_names"] = rng.sample(fresh, len(p["factor_values"]))
+        return op(name, **p)
+    if name == "remap_columns":
+        c = rng.choice(str_cols)
+        keys = list(dict.fromkeys(values_of(c))) or ["x"]
+        keys = rng.sample(keys, min(len(keys), rng.choice([1, 3, 3])))
+        if rng.random() < 0.4:
+            keys.append(NA)
+        dst = [rng.choice([n for n in NEWCOLS if n not in cols] or ["zz"])]
+        return op(name, source_columns=[c], destination_columns=dst,
+                  map_list=[[k, rng.choice(["m", "n", 1, 2])] for k in dict.fromkeys(keys)],
+                  ignore_missing=True if rng.random() < 0.8 else False)
+    if name == "merge_consecutive":
+        vs = values_of(code_col) or ["x"]
+        code = max(set(vs), key=vs.count) if rng.random() < 0.8 else rng.choice(vs)
+        p = dict(column_name=code_col, event_code=code,
+                 set_durations=(rng.random() < 0.5 and "onset" in cols and "duration" in cols),
+                 ignore_missing=rng.random() < 0.5)
+        if rng.random() < 0.8:
+            others = [c for c in str_cols if c != code_col]
+            p["match_columns"] = rng.sample(others, min(len(others), rng.randint(0, 1)))
+        return op(name, **p)
+    if name == "split_rows":
+        if "onset" not in cols or "duration" not in cols:
+            return gen_op(rng, name, cols)
+        ev = {"onset_source": [rng.choice([0, 1, 2, "duration"])], "duration": [rng.choice([0, 1, "duration"])]}
+        if rng.random() < 0.7:
+            free = [c for c in cols if c not in ("onset", "duration", code_col)]
+            if free:
+                ev["copy_columns"] = rng.sample(free, 1)
+        return op(name, anchor_column=code_col if rng.random() < 0.7 else "e",
+                  new_events={rng.choice(["x", "stop", "new"]): ev}, remove_parent_row=rng.random() < 0.3)
+    raise ValueError(name)
+
+
+def chain_cases(rng, per_pair, ntriples):
+    """Operation LISTS: every ordered pair of the eight operations (and a sample of triples), each operation built
+    from the table the documented meaning of the preceding ones produces, on tables with event codes."""
+    out = []
+    names = list(FLAGS)
+
+    def build(seq):
+        t = gen_event_table(rng)
+        cur = t
+        ops = []
+        for nm in seq:
+            ops.append(active_op(rng, nm, cur))
+            sp = spec_run(ops, t)
+            if sp[0] == "ok":
+                cur = sp[1]
+        tables = [t] if rng.random() < 0.6 else [t, gen_event_table(rng)]
+        return {"ops": ops, "tables": tables, "expect_valid": spec_valid(ops), "kind": f"chain:{len(seq)}"}
+    for a in names:
+        for b in names:
+            for _ in range(per_pair):
+                out.append(build([a, b]))
+    for _ in range(ntriples):
+        out.append(build([rng.choice(names) for _ in range(3)]))
+    return out
+
+
 def malformed_cases(rng, n):
     """Lists that violate the JSON specification in exactly one known way."""
     out = []
@@ -1120,7 +1286,7 @@ def run(tier, seed, res, model_ok=True, proof_ok=True):
     if not FIXED:
         res.known_ids = dict(getattr(res, "known_ids", {}), **LEGACY_FINDINGS)
     per = 10 if tier == "quick" else 60
-    nrand = 2000 if tier == "quick" else 25000
+    nrand = 1600 if tier == "quick" else 22000
     nbad = 300 if tier == "quick" else 3000
     if not proof_ok:
         per, nrand = per * 3, nrand * 3
@@ -1129,7 +1295,8 @@ def run(tier, seed, res, model_ok=True, proof_ok=True):
         res.violation("generator-covers-specification", {"flags": gaps},
                       "the PARAMS in the tree have booleans/optional properties the generator does not enumerate", no_input=True)
     cases = corpus() + corpus_f5(random.Random(0)) + systematic_cases(rng, per) + random_cases(rng, nrand) \
-        + malformed_cases(rng, nbad) + drop_cases(rng, 3 if tier == "quick" else 20)
+        + malformed_cases(rng, nbad) + drop_cases(rng, 3 if tier == "quick" else 20) \
+        + chain_cases(rng, 5 if tier == "quick" else 40, 200 if tier == "quick" else 3000)
     with Pool(int(C.JOBS)) as pool:
         impl = pool.map(impl_one, cases, chunksize=50)
 
@@ -1173,7 +1340,8 @@ def run(tier, seed, res, model_ok=True, proof_ok=True):
         "distinct_nontrivial": distinct,
         "rule": "corpus (refuted witnesses + regressions) + every operation x every setting of its boolean flags and "
                 f"optional parameters x {per} draws of (tables, processing order of 1-3 tables through ONE dispatcher) + "
-                f"{nrand} random lists of 1-3 operations + {nbad} lists with one seeded specification fault; "
+                f"{nrand} random lists of 1-3 operations + {nbad} lists with one seeded specification fault + every ordered "
+                "pair of operations (and sampled triples) built from the intermediate tables on event tables; "
                 "non-trivial = specification-valid list and at least one table with rows",
         "samples": [cases[0], cases[len(cases) // 2], cases[-1]],
         "exhaustive": False,
